@@ -137,4 +137,10 @@ theorem gen_mw_changepoints_eq_model (scores : Nat → α) (n : Nat) (thr : α) 
 
 end mw
 
+/-! ### Sanity: kernel evaluation of the generated definitions on concrete inputs -/
+
+example : where_ [false, true, true, false, true] = some [(1, 3), (4, 5)] := by decide
+
+example : mw_changepoints (fun i => [0, 3, 5, 3, 0, 0, 7, 7, 1].getD i (0 : Nat)) 9 2 1 = some [2, 6] := by decide
+
 end Skc
